@@ -2,12 +2,15 @@ import JoblibModel.FuncCode
 import JoblibModel.IOUtil
 /-! Driver for C12: a stateful interpreter of histories over `JoblibModel.FuncCode.step`.
 
-  reset <old|fixed>          model of the pinned tree / of the tree with the F10 repair   → ok
-  def <obj> <src> <0|1>      a `def` (1) or `lambda` (0) creating object <obj> with source <src> → ok
-  swap <obj> <src>           → ok | notlive
-  call <obj> <a>             → val <x|h> <src> <a>  (the value is (source, argument)) | notlive
-  check <obj> <a>            → flag <0|1> | notlive
-  clearfn <obj>              → ok | notlive
+  reset <f10:0|1> <f38:0|1>  which tree is modelled: 1 = with the F10 / F38 repair           → ok
+  def <obj> <src> <0|1>      a `def` (1) or `lambda` (0): function <obj>, code object (<obj>, <src>),
+                             wrapper <obj>                                                      → ok
+  wrap <w> <obj>             another MemorizedFunc on function <obj>                          → ok | notlive
+  swap <obj> <id> <src>      <obj>.__code__ = the code object (<id>, <src>)                   → ok | notlive
+  call <w> <a>               → val <x|h> <src> <a>  (the value is (source, argument)) | notlive
+  check <w> <a>              → flag <0|1> | notlive
+  clearfn <w>                → ok | notlive
+  damage <delete|unreadable|other>                                                             → ok
   clearall | fresh           → ok
 
 Anything else, and any request before the first `reset`, is answered `bad-op`. -/
@@ -16,7 +19,7 @@ open JoblibModel JoblibModel.FuncCode JoblibModel.IOUtil
 abbrev RV := Nat × Nat
 
 structure DS where
-  ver : Option Version := none
+  cfg : Option Cfg := none
   st : State RV := {}
 
 def sem : Src → Nat → RV := fun k a => (k, a)
@@ -27,26 +30,35 @@ def showOut : Out RV → String
   | .done => "ok"
   | .notLive => "notlive"
 
+def pBit : String → Option Bool
+  | "0" => some false
+  | "1" => some true
+  | _ => none
+
 def pOp : List String → Option Op
-  | ["def", o, k, n] => do
-    let named ← (match n with | "0" => some false | "1" => some true | _ => none)
-    pure (.define (← o.toNat?) (← k.toNat?) named)
-  | ["swap", o, k] => do pure (.swap (← o.toNat?) (← k.toNat?))
+  | ["def", o, k, n] => do pure (.define (← o.toNat?) (← k.toNat?) (← pBit n))
+  | ["wrap", w, o] => do pure (.wrap (← w.toNat?) (← o.toNat?))
+  | ["swap", o, i, k] => do pure (.swap (← o.toNat?) (← i.toNat?, ← k.toNat?))
   | ["call", o, a] => do pure (.call (← o.toNat?) (← a.toNat?))
   | ["check", o, a] => do pure (.check (← o.toNat?) (← a.toNat?))
   | ["clearfn", o] => do pure (.clearFn (← o.toNat?))
+  | ["damage", "delete"] => some (.damage .delete)
+  | ["damage", "unreadable"] => some (.damage .unreadable)
+  | ["damage", "other"] => some (.damage .other)
   | ["clearall"] => some .clearAll
   | ["fresh"] => some .fresh
   | _ => none
 
 def handle (s : DS) (line : String) : DS × String :=
   match tokens line with
-  | ["reset", "old"] => ({ ver := some .old }, "ok")
-  | ["reset", "fixed"] => ({ ver := some .fixed }, "ok")
+  | ["reset", a, b] =>
+    match pBit a, pBit b with
+    | some a, some b => ({ cfg := some ⟨a, b⟩ }, "ok")
+    | _, _ => (s, "bad-op")
   | ts =>
-    match s.ver, pOp ts with
-    | some ver, some op =>
-      let r := step ver sem s.st op
+    match s.cfg, pOp ts with
+    | some cfg, some op =>
+      let r := step cfg sem s.st op
       ({ s with st := r.2 }, showOut r.1)
     | _, _ => (s, "bad-op")
 
